@@ -54,18 +54,20 @@ type class struct {
 	bc     catalog.BodyClass
 	stream string // s3c stream mode ("" = plain body)
 	cut    bool   // the client stops inside the body and half-closes; X-Amz-Decoded-Content-Length names the bytes really sent
+	noLen  bool   // the request announces no body at all: neither Content-Length nor Transfer-Encoding
 }
 
 var (
-	clsEmpty  = class{"empty", catalog.BodyEmpty, "", false}
-	clsValid  = class{"valid", catalog.BodyValid, "", false}
-	clsBig    = class{"big", catalog.BodyBig, "", false}
-	clsSigned = class{"chunk-signed", catalog.BodyValid, s3c.StreamSigned, false}
-	clsSignTr = class{"chunk-signed-trailer", catalog.BodyValid, s3c.StreamSignedTr, false}
-	clsUnsTr  = class{"chunk-unsigned-trailer", catalog.BodyValid, s3c.StreamUnsignTr, false}
-	clsUnsBig = class{"chunk-unsigned-trailer-big", catalog.BodyBig, s3c.StreamUnsignTr, false}
+	clsEmpty  = class{"empty", catalog.BodyEmpty, "", false, false}
+	clsValid  = class{"valid", catalog.BodyValid, "", false, false}
+	clsBig    = class{"big", catalog.BodyBig, "", false, false}
+	clsSigned = class{"chunk-signed", catalog.BodyValid, s3c.StreamSigned, false, false}
+	clsSignTr = class{"chunk-signed-trailer", catalog.BodyValid, s3c.StreamSignedTr, false, false}
+	clsUnsTr  = class{"chunk-unsigned-trailer", catalog.BodyValid, s3c.StreamUnsignTr, false, false}
+	clsUnsBig = class{"chunk-unsigned-trailer-big", catalog.BodyBig, s3c.StreamUnsignTr, false, false}
 	// abnormal end of the request: the verdict on the signature must not depend on the body arriving completely
-	clsCutDL = class{"big-cut+decoded-length", catalog.BodyBig, "", true}
+	clsCutDL = class{"big-cut+decoded-length", catalog.BodyBig, "", true, false}
+	clsNoLen = class{"no-body-length", catalog.BodyEmpty, "", false, true}
 )
 
 type plan struct {
@@ -327,6 +329,10 @@ func build(e *catalog.Entry, a catalog.Args, cls class, rng *rand.Rand, now time
 			rq.Stream.TrailerName = "x-amz-checksum-" + []string{"crc32", "crc32c", "sha1", "sha256", "crc64nvme"}[rng.Intn(5)]
 		}
 	}
+	if cls.noLen {
+		rq.Body = nil
+		rq.NoContentLength = true
+	}
 	if cls.cut && len(rq.Body) > 40000 {
 		n := 9000 + rng.Intn(30000)
 		rq.CloseAfter = n
@@ -561,7 +567,7 @@ func plans(c *ev.Ctx, e *catalog.Entry, a catalog.Args, defs []*defect, rng *ran
 	var streams []class
 	if e.Streamable {
 		streams = []class{clsSigned, clsSignTr, clsUnsTr}
-		streams = append(streams, clsCutDL)
+		streams = append(streams, clsCutDL, clsNoLen)
 		if c.Thorough() {
 			// no signed 1 MiB stream: the signed chunk reader of the pinned tree fails (500) on some
 			// socket fragmentations of a correct stream - that is C12's subject and would make the
@@ -571,7 +577,7 @@ func plans(c *ev.Ctx, e *catalog.Entry, a catalog.Args, defs []*defect, rng *ran
 	}
 	controls = []class{clsValid}
 	for _, cl := range streams {
-		if !cl.cut {
+		if !cl.cut && !cl.noLen {
 			controls = append(controls, cl)
 		}
 	}
@@ -655,7 +661,7 @@ func (w *worker) endpoint(e *catalog.Entry) {
 		switch {
 		case cl.name == clsUnsBig.name:
 			return liveBy[clsUnsTr.name+"|"+acct]
-		case cl.cut:
+		case cl.cut, cl.noLen:
 			return liveBy[clsValid.name+"|"+acct]
 		case cl.stream != "":
 			return liveBy[cl.name+"|"+acct]
